@@ -53,6 +53,7 @@ from lib import runner, vbuild
 from lib import x86cases as X
 from lib import a64cases as ac
 from lib import c13lib as L
+from lib import x86dec as D
 from checks import c01 as C01
 from checks import c02 as C02
 
@@ -147,8 +148,57 @@ def x86_observe(exes, cases, workdir, tag):
     return out, crashes, lv
 
 
-def x86_judge_case(c, rv, rn, val):
-    """Per-case clauses (A) and (B).  Returns (list of (clause, description), verdict triple of booleans)."""
+def x86_db_instance(c, rn, cands):
+    """Reference-side verdict 'this accepted request IS an instance of a database form of the mnemonic in this mode': the
+    independent field decoder of C01 (lib/x86dec.py, driven by the ISA database: registers, memory form, immediate field with the
+    db's signedness, decorations, prefixes) confirms that the bytes the non-validating assembler appended denote exactly the
+    requested operands under a db form allowed in the mode, and every register named exists in the mode.
+    Returns (True, '') / (False, reason)."""
+    err, errname, b, delta, extra = rn
+    if err != 0 or b is None or delta != len(b) or "cursor-delta" in extra or "post=" in extra:
+        return False, "not cleanly encoded"
+    cc = X.semantic_canon(c)
+    if D.unencodable_ids(cc):
+        return False, "register id does not exist in the mode"
+    # decorations that are not part of the bytes / not decorations at all
+    if cc.extra is not None and cc.extra[0] == "k" and cc.extra[1] == 0:
+        return False, "{k0} is not a write mask (EVEX.aaa = 000 means unmasked)"
+    # APX is outside this AsmJit (see ASSUMPTIONS): EVEX-promoted legacy/VEX forms do not make a request an instance
+    forms = [g for g in cands if cc.mode in g["modes"] and not g["apx"] and D.bind(g, cc) is not None]
+    # an encoding request ({evex} / {vex} / {vex3}) is an instance only of a form that has that encoding
+    if cc.opts & X.OPT["evex"]:
+        forms = [g for g in forms if g["prefix"] == "EVEX"]
+    if cc.opts & (X.OPT["vex"] | X.OPT["vex3"]):
+        forms = [g for g in forms if g["prefix"] in ("VEX", "XOP")]
+    if cc.extra is not None and cc.extra[0] != "k":
+        # a REP count register belongs to forms that list a real rep/repne prefix (not 'repIgnore' / bnd)
+        forms = [g for g in forms if {"rep", "repne"} & set(g["prefixes"])]
+    # immediates the db types as unsigned: the value has to be inside the unsigned field
+    def imm_ok(g):
+        for o, r in zip(g["operands"], D.bind(g, cc)):
+            if r is not None and r[0] == "i" and o["imm"] and o["immSign"] == "unsigned" and not (0 <= r[1] < (1 << o["imm"])):
+                return False
+        return True
+    forms = [g for g in forms if imm_ok(g)]
+    # the db gives every memory operand its size (or says 'mem' = no size): a request that leaves the size out where the db
+    # has one is AsmJit's convenience, not an instance by the db's rules
+    def mem_sized(g):
+        for o, r in zip(g["operands"], D.bind(g, cc)):
+            if r is not None and r[0] == "m" and r[1].size == 0 and o["mem"] and not o["vsibReg"] and o["memSize"] and o["memSize"] > 0:
+                return False
+        return True
+    forms = [g for g in forms if mem_sized(g)]
+    if not forms:
+        return False, "no db form admits the request under the reference rules"
+    v = D.check(cc, b, forms, relocated=not extra.startswith("r0"))
+    if v.status != "pass":
+        return False, "db decoder: %s %s" % (v.status, v.detail[:120])
+    return True, ""
+
+
+def x86_judge_case(c, rv, rn, val, cands=None):
+    """Per-case clauses (A), (B) and - when `cands` (the db forms of the mnemonic) is given, i.e. for cases instantiated from a db
+    form in a mode the db allows - (E).  Returns (list of (clause, description), verdict triple of booleans)."""
     out = []
     v_ok, n_ok, val_ok = rv[0] == 0, rn[0] == 0, val[0] == 0
     line = X.emit_line(c)
@@ -163,6 +213,10 @@ def x86_judge_case(c, rv, rn, val):
     else:
         if v_ok:
             out.append(("validate-vs-assembler", "%s: validate() = %s but the validating assembler accepts it (bytes %s)" % (line, val[1], rv[2].hex() if rv[2] else "-")))
+        if n_ok and cands is not None and x86_db_instance(c, rn, cands)[0]:
+            out.append(("validator-refuses-db-instance[%s]" % val[1],
+                        "%s: the assembler without validation encodes it as %s, which the ISA database decodes as exactly this request (an instance of a db form "
+                        "allowed in %d-bit mode), but validate() = %s and the validating assembler answers %s" % (line, rn[2].hex(), c.mode, val[1], rv[1])))
     return out, (val_ok, n_ok, v_ok)
 
 
@@ -275,16 +329,24 @@ def _x86_work_inner(chunk_id, names, out):
     # root-cause folding: a clause the form's DEFAULT instantiation already shows is inherited by every deviation of
     # another slot; such cases are filed under the deviation class 'default'
     default_clauses = {}
-    for c, (rv, rn, val) in zip(cases, obs):
-        if c.dev == "default" and rv is not None and rn is not None and val is not None:
-            default_clauses[(c.form, c.mode)] = set(cl for cl, _ in x86_judge_case(c, rv, rn, val)[0])
-    for c, (rv, rn, val), at in zip(cases, obs, attrs):
+    judged = [None] * len(cases)
+    for i, (c, (rv, rn, val), at) in enumerate(zip(cases, obs, attrs)):
+        if rv is None or rn is None or val is None:
+            continue
+        # clause (E) only for requests instantiated from a db form in a mode the db allows (not near-misses / excluded modes)
+        inst = any(role == "inst" for _, role, _ in at)
+        judged[i] = x86_judge_case(c, rv, rn, val, by_name[c.name] if inst else None)
+        if c.dev == "default":
+            default_clauses[(c.form, c.mode)] = set(cl for cl, _ in judged[i][0])
+    for i, (c, (rv, rn, val), at) in enumerate(zip(cases, obs, attrs)):
         if rv is None or rn is None or val is None:
             cnt["not_executed"] += 1
             continue
         cnt["evaluations"] += 1
         cnt["observations"] += 3
-        clauses, (val_ok, n_ok, v_ok) = x86_judge_case(c, rv, rn, val)
+        clauses, (val_ok, n_ok, v_ok) = judged[i]
+        if not val_ok and n_ok and any(role == "inst" for _, role, _ in at):
+            cnt["db_instance_candidates_checked_by_db_decoder"] += 1
         out["hist"]["val=%s n=%s v=%s" % ("Ok" if val_ok else "rej", "Ok" if n_ok else "rej", "Ok" if v_ok else "rej")] += 1
         if val_ok and n_ok and v_ok and not clauses:
             cnt["distinct_nontrivial"] += 1
@@ -937,18 +999,22 @@ def _replay_x86(res, text, exes, wd, ctx):
     if ctx.get("replay"):
         print("replay: %s\n  emit          -> %s %s\n  emit+validate -> %s %s\n  validate()    -> %s" % (
             X.emit_line(c), rn[1], rn[2].hex() if rn[2] else "-", rv[1], rv[2].hex() if rv[2] else "-", val[1]))
-    clauses, (val_ok, n_ok, v_ok) = x86_judge_case(c, rv, rn, val)
+    forms = X.load_db(vbuild.REPO)
+    f = forms[c.form] if 0 <= c.form < len(forms) else None
+    if f is not None and f["name"] != c.name:
+        f = None
+    # clause (E) applies to requests instantiated from a db form in a mode the db allows (not near-misses)
+    inst = f is not None and c.mode in f["modes"] and not c.dev.startswith("nm=")
+    cands = [g for g in forms if g["name"] == c.name] if inst else None
+    clauses, (val_ok, n_ok, v_ok) = x86_judge_case(c, rv, rn, val, cands)
     dc = L.x86_dev_class(c.dev)
     folded = set()
-    if clauses and c.dev != "default":
-        forms = X.load_db(vbuild.REPO)
-        f = forms[c.form] if 0 <= c.form < len(forms) else None
-        if f is not None and f["name"] == c.name:
-            dflt = list(X.instantiate(f, c.mode, k=0))
-            if dflt:
-                o2, cr2, _ = x86_observe(exes, dflt[:1], wd, "d")
-                if not cr2 and None not in o2[0]:
-                    folded = set(cl for cl, _ in x86_judge_case(dflt[0], *o2[0])[0])
+    if clauses and c.dev != "default" and f is not None:
+        dflt = list(X.instantiate(f, c.mode, k=0))
+        if dflt:
+            o2, cr2, _ = x86_observe(exes, dflt[:1], wd, "d")
+            if not cr2 and None not in o2[0]:
+                folded = set(cl for cl, _ in x86_judge_case(dflt[0], *o2[0], cands)[0])
     for clause, desc in clauses:
         res.add_violation("agree:x86:%d:%s:%s:%s@%s" % (c.mode, c.name, c.sig, clause, "default" if clause in folded else dc), desc, text)
     if mc and mc.group(1) == "validator-accepts-excluded-mode" and mf and val_ok:
